@@ -3,7 +3,7 @@ import tables as T
 from cfg import cfg_of
 from flow import Taint, Tracker, callee_matches, field_reads, op_local, prep, backward
 from rules import CallGuard, CallSink, CmpGuard, RetSink, AggSink, BlockSink, FieldOptGuard
-from rules import PL
+from rules import PL, final_edges
 from props.C04 import call_results, NRS, agg_field_operands
 from props.C01 import RS, WITHCFG, REMOVE, PUTV, HLC, LSC, store_rules
 import panics as P
@@ -101,7 +101,7 @@ def run(R):
         gpr = CallGuard([PRUNE], ("Ok",), "prune_records_if_needed is Ok")
         n_, acc_, _ = gpr.edges(pv)
         if acc_:
-            R.must_pass("C10.put.prune-last", pv, [("spawn(write)", CallSink("tokio::task::spawn::spawn"))], from_blocks=tuple(d for _, d in acc_),
+            R.must_pass("C10.put.prune-last", pv, [("spawn(write)", CallSink("tokio::task::spawn::spawn"))], from_blocks=tuple(d for _, d in final_edges(cfg_of(pv), acc_)),
                         descr="after capacity was granted (a record may have been evicted) the record is always written")
         else:
             R.viol("C10.put.prune-last", "guard-missing", "put_verified does not branch on prune_records_if_needed", pv, pv.lines[0])
@@ -332,7 +332,7 @@ def farthest_refresh_rule(R):
         R.viol("C10.remove.farthest", "guard-missing", "remove() does not test whether the removed key is the recorded farthest record", rm, rm.lines[0])
         R.inst("C10.remove.farthest", "K5 must-follow", "removing the farthest record recomputes farthest_record", 0, False)
         return
-    R.must_pass("C10.remove.farthest", rm, [("farthest_record = calculate_farthest()", CallSink(NRS + "::calculate_farthest"))], from_blocks=tuple(d for _, d in acc),
+    R.must_pass("C10.remove.farthest", rm, [("farthest_record = calculate_farthest()", CallSink(NRS + "::calculate_farthest"))], from_blocks=tuple(d for _, d in final_edges(cfg_of(rm), acc)),
                 descr="removing the farthest record recomputes farthest_record")
 
 
